@@ -139,128 +139,273 @@ Proof.
 Qed.
 
 (* ---- what the model observes on a case -------------------------------------------------------- *)
-Definition model_build (f : pyfunc) (inj : list name) (exp : list (name * option value))
-           (fwd : bool) (calls : list call) : res built_obs :=
-  match update_wrapper f inj exp with
-  | Raise e => Raise e
-  | Ok g =>
-      Ok (mkBO (match sig_of (b_func g) with Ok s => s | Raise _ => mkSig [] None end)
-               (f_name (b_func g)) (f_doc (b_func g)) (f_module (b_func g))
-               (b_wrapped_is_func g) (f_async (b_func g))
-               (map (call_built f g fwd) calls))
+Definition obs_of_built (g : built) : built_obs :=
+  mkBO (match sig_of (b_func g) with Ok s => s | Raise _ => mkSig [] None end)
+       (f_name (b_func g)) (f_doc (b_func g)) (f_module (b_func g))
+       (f_dict (b_func g)) (f_async (b_func g)).
+
+Definition model_case (f : pyfunc) (steps : list step) (fwd : bool) (calls : list call) : c13_case :=
+  mkCase f steps fwd calls (func_sig f) (f_async f) (map (call_func f) calls)
+         (map obs_of_built (fst (run_steps f steps))) (snd (run_steps f steps))
+         (match snd (run_steps f steps) with
+          | None => map (call_top f (rev (fst (run_steps f steps))) fwd) calls
+          | Some _ => []
+          end).
+
+Definition steps_nonzero (steps : list step) : Prop :=
+  Forall (fun st => Forall (fun nd : name * option value => fst nd <> 0) (s_expected st)) steps.
+
+Definition same_meta_func (base h : pyfunc) : Prop :=
+  f_name h = f_name base /\ f_doc h = f_doc base /\ f_module h = f_module base /\ f_async h = f_async base.
+
+(* a level that passes its parameters on under the signature [s] *)
+Definition passes_on (s : signature) (g : built) : Prop :=
+  sig_of (b_func g) = Ok s /\ b_inv g = inv_of_params (sg_params s).
+
+Lemma run_steps_cons h st r :
+  run_steps h (st :: r) =
+  match update_wrapper_opt (s_options st) (s_id st) h (s_injected st) (s_expected st) with
+  | Raise e => ([], Some e)
+  | Ok g => (g :: fst (run_steps (b_func g) r), snd (run_steps (b_func g) r))
   end.
+Proof.
+  cbn [run_steps]. destruct (update_wrapper_opt _ _ _ _ _) as [g|e]; [|reflexivity].
+  destruct (run_steps (b_func g) r); reflexivity.
+Qed.
 
-Definition model_case f inj exp fwd calls : c13_case :=
-  mkCase f inj exp fwd calls (func_sig f) (f_async f) (map (call_func f) calls)
-         (model_build f inj exp fwd calls).
+(* THE STACK LEMMA: level by level the model's observations satisfy [levels_ok];
+   the outermost level passes its own parameters on under a structured
+   signature; in a stack of plain wraps every level has the base signature. *)
+Lemma levels_model base : forall steps h,
+  wf_func h -> same_meta_func base h -> steps_nonzero steps ->
+  exists top,
+    levels_ok base (f_async base) (func_sig h) (f_id h) steps
+              (map obs_of_built (fst (run_steps h steps))) (snd (run_steps h steps)) = Some top /\
+    (snd (run_steps h steps) = None ->
+       (forall gtop below, rev (fst (run_steps h steps)) = gtop :: below ->
+          passes_on top gtop /\ exists b2, good b2 /\ top = fb_sig b2) /\
+       (forallb plain_step steps = true ->
+          Forall (passes_on (func_sig h)) (fst (run_steps h steps)))).
+Proof.
+  induction steps as [|st r IH]; intros h WF MT NZ.
+  - exists (func_sig h). split; [reflexivity|]. intros _. split.
+    + intros gtop below E. destruct (@nil built); discriminate.
+    + intros _. constructor.
+  - inversion NZ as [|? ? NZ1 NZr]; subst. rewrite run_steps_cons. cbn [levels_ok].
+    pose proof (update_wrapper_opt_refines (s_options st) (s_id st) h (s_injected st) (s_expected st) WF NZ1) as R.
+    destruct (update_wrapper_opt (s_options st) (s_id st) h (s_injected st) (s_expected st)) as [g|e];
+      destruct (spec_wraps (func_sig h) (s_injected st) (s_expected st)) as [s'|e'] eqn:SW;
+      try (exfalso; exact R).
+    + destruct R as [SG [N [Dc [M [A [ID [DW [DS [IV [[WFg WDg] [b2 [G2 ES]]]]]]]]]]]].
+      destruct MT as [MN [MD [MM MA]]].
+      assert (FS : func_sig (b_func g) = s').
+      { pose proof (sig_of_func_sig (b_func g) (wf_len _ WFg)) as X. rewrite SG in X. congruence. }
+      destruct (IH (b_func g) WFg) as [top [LO REST]].
+      { repeat split; congruence. }
+      { exact NZr. }
+      cbn [fst snd map]. exists top. split.
+      * cbn [obs_of_built bo_sig bo_name bo_doc bo_module bo_dict bo_async].
+        unfold obs_of_built at 1. cbn [bo_sig bo_name bo_doc bo_module bo_dict bo_async].
+        rewrite SG, sig_eqb_refl, N, MN, Nat.eqb_refl, Dc, MD, M, MM, !(option_eqb_refl Nat.eqb Nat.eqb_refl).
+        rewrite A, MA, bool_eqb_refl, DW, (option_eqb_refl Nat.eqb Nat.eqb_refl). cbn [andb].
+        rewrite <- FS, <- ID. exact LO.
+      * intro E. destruct (REST E) as [TOP PL]. split.
+        -- intros gtop below RV. cbn [rev] in RV.
+           destruct (rev (fst (run_steps (b_func g) r))) as [|g1 rest] eqn:RG.
+           ++ simpl in RV. inversion RV; subst gtop below.
+              (* g is the outermost level: r built nothing, so r = [] *)
+              assert (fst (run_steps (b_func g) r) = []).
+              { rewrite <- (rev_involutive (fst (run_steps (b_func g) r))), RG. reflexivity. }
+              destruct r as [|st2 r2].
+              ** simpl in LO. inversion LO; subst top. split; [split; [congruence | congruence]|].
+                 exists b2. split; [exact G2 | congruence].
+              ** exfalso. rewrite run_steps_cons in H, E.
+                 destruct (update_wrapper_opt (s_options st2) (s_id st2) (b_func g) (s_injected st2) (s_expected st2));
+                   [discriminate H | discriminate E].
+           ++ simpl in RV. inversion RV; subst g1 below. apply (TOP gtop rest). reflexivity.
+        -- intro PLN. cbn [forallb] in PLN. apply andb_true_iff in PLN as [P1 P2].
+           assert (EQ : s' = func_sig h).
+           { unfold plain_step in P1. destruct (s_injected st); [|discriminate]. destruct (s_expected st); [|discriminate].
+             unfold spec_wraps in SW. simpl in SW. congruence. }
+           rewrite EQ in SG, IV, FS. constructor.
+           ++ unfold passes_on. split; [exact SG | exact IV].
+           ++ rewrite <- FS. apply PL. exact P2.
+    + cbn [fst snd map]. exists (func_sig h). destruct R as [-> | ->]; (split; [reflexivity | discriminate]).
+Qed.
 
-(* per call: what [calls_ok] asks of the model *)
-Section Calls.
-  Variables (f : pyfunc) (g : built) (b2 : fbuilder) (fwd : bool).
+(* ---- calls through a stack ---------------------------------------------------------------------- *)
+(* one level that passes its parameters on under a structured signature *)
+Lemma level_call b2 g c : good b2 -> passes_on (fb_sig b2) g -> NoDup (keys (c_kw c)) ->
+  match bind (sg_params (fb_sig b2)) c with
+  | Ok env => call_func (b_func g) c = Ok env /\
+              exists c', eval_inv (b_inv g) env = Ok c' /\ bind (sg_params (fb_sig b2)) c' = Ok env /\
+                         NoDup (keys (c_kw c'))
+  | Raise e => call_func (b_func g) c = Raise e
+  end.
+Proof.
+  intros G2 [SG IV] NDk.
+  assert (CG : call_func (b_func g) c = bind (sg_params (fb_sig b2)) c) by (unfold call_func; rewrite SG; reflexivity).
+  rewrite CG. destruct (bind (sg_params (fb_sig b2)) c) as [env|e] eqn:B; [|reflexivity].
+  split; [reflexivity|]. rewrite IV.
+  unfold fb_sig, mk_sig in *. cbn [sg_params] in *. rewrite mk_params_sparams in *.
+  rewrite inv_of_params_structured by (try apply seg_P; try apply seg_VA; try apply seg_KP; try apply seg_VK).
+  apply (forward_structured _ _ _ _ c env
+           (seg_P (d_get (fb_annotations b2)) (fb_args b2) (odflt (fb_defaults b2)))
+           (seg_VA (d_get (fb_annotations b2)) (fb_varargs b2))
+           (seg_KP (d_get (fb_annotations b2)) (fb_kwonly b2) (fb_kwdefaults b2))
+           (seg_VK (d_get (fb_annotations b2)) (fb_varkw b2))).
+  - rewrite <- mk_params_sparams, mk_params_names. exact (g_nodup b2 G2).
+  - exact NDk.
+  - exact B.
+Qed.
+
+(* the signature of a well-formed function is a structured one *)
+Lemma func_sig_structured f : wf_func f -> exists b2, good b2 /\ func_sig f = fb_sig b2.
+Proof.
+  intro WF. destruct (from_func_good f WF) as [b0 [_ [G0 [S0 _]]]]. exists b0. split; [exact G0 | symmetry; exact S0].
+Qed.
+
+(* a stack of levels that all pass their parameters on under f's signature
+   hands f the frame it would have seen directly *)
+Lemma chain_plain f : wf_func f -> forall gs c,
+  Forall (passes_on (func_sig f)) gs -> NoDup (keys (c_kw c)) ->
+  call_chain f gs c = call_func f c.
+Proof.
+  intros WF. destruct (func_sig_structured f WF) as [b2 [G2 FS]].
+  assert (CF : forall x, call_func f x = bind (sg_params (fb_sig b2)) x).
+  { intro x. unfold call_func. rewrite (sig_of_func_sig f (wf_len f WF)), FS. reflexivity. }
+  induction gs as [|g below IH]; intros c FA NDk; [reflexivity|].
+  inversion FA as [|? ? PG PB]; subst. rewrite FS in PG.
+  pose proof (level_call b2 g c G2 PG NDk) as L. cbn [call_chain]. rewrite CF.
+  destruct (bind (sg_params (fb_sig b2)) c) as [env|e].
+  - destruct L as [L1 [c' [EV [B' ND']]]]. rewrite L1, EV. rewrite (IH c' PB ND'), CF. exact B'.
+  - rewrite L. reflexivity.
+Qed.
+
+Lemma Forall_rev' {A} (P : A -> Prop) l : Forall P l -> Forall P (rev l).
+Proof.
+  intro H. apply Forall_forall. intros x Hx. apply in_rev in Hx. rewrite Forall_forall in H. apply H. exact Hx.
+Qed.
+
+Section TopCalls.
+  Variables (f : pyfunc) (gtop : built) (below : list built) (b2 : fbuilder) (fwd : bool).
   Hypothesis WF : wf_func f.
   Hypothesis G2 : good b2.
-  Hypothesis SG : sig_of (b_func g) = Ok (fb_sig b2).
-  Hypothesis IV : b_inv g = inv_of_params (sg_params (fb_sig b2)).
-  (* a forwarding wrapper only with plain wraps *)
-  Hypothesis PLAIN : fwd = true -> fb_sig b2 = func_sig f.
+  Hypothesis PT : passes_on (fb_sig b2) gtop.
+  (* forwarding wrappers only in a stack of plain wraps *)
+  Hypothesis PLAIN : fwd = true -> fb_sig b2 = func_sig f /\ Forall (passes_on (func_sig f)) below.
 
   Lemma model_call_ok c : NoDup (keys (c_kw c)) ->
-    let '(saw, out) := call_built f g fwd c in
+    let '(saw, out) := call_top f (gtop :: below) fwd c in
     is_type_error out = true /\
     is_ok out = accepts (sg_params (fb_sig b2)) c /\
     (match saw with Some _ => true | None => false end) = is_ok out /\
     (fwd = true -> out = call_func f c).
   Proof.
-    intro NDk. unfold call_built, accepts.
-    assert (CG : call_func (b_func g) c = bind (sg_params (fb_sig b2)) c) by (unfold call_func; rewrite SG; reflexivity).
-    rewrite CG.
+    intro NDk. pose proof (level_call b2 gtop c G2 PT NDk) as L. unfold call_top, accepts.
     destruct (bind (sg_params (fb_sig b2)) c) as [env|e] eqn:B.
-    - (* accepted by the own signature: the invocation evaluates *)
-      assert (FW : exists c', eval_inv (b_inv g) env = Ok c' /\ bind (sg_params (fb_sig b2)) c' = Ok env).
-      { rewrite IV. unfold fb_sig, mk_sig in *. cbn [sg_params] in *. rewrite mk_params_sparams in *.
-        rewrite inv_of_params_structured by (try apply seg_P; try apply seg_VA; try apply seg_KP; try apply seg_VK).
-        destruct (forward_structured _ _ _ _ c env
-                    (seg_P (d_get (fb_annotations b2)) (fb_args b2) (odflt (fb_defaults b2)))
-                    (seg_VA (d_get (fb_annotations b2)) (fb_varargs b2))
-                    (seg_KP (d_get (fb_annotations b2)) (fb_kwonly b2) (fb_kwdefaults b2))
-                    (seg_VK (d_get (fb_annotations b2)) (fb_varkw b2))) as [c' [EV [B' _]]].
-        - rewrite <- mk_params_sparams, mk_params_names. exact (g_nodup b2 G2).
-        - exact NDk.
-        - exact B.
-        - exists c'. split; assumption. }
-      destruct FW as [c' [EV B']]. rewrite EV.
+    - destruct L as [L1 [c' [EV [B' ND']]]]. rewrite L1, EV.
       destruct fwd eqn:F.
-      + (* plain wraps: f binds the forwarded call to the same frame *)
+      + destruct (PLAIN eq_refl) as [ES PB].
         assert (CF : forall x, call_func f x = bind (sg_params (fb_sig b2)) x).
-        { intro x. unfold call_func. rewrite (sig_of_func_sig f (wf_len f WF)), (PLAIN eq_refl). reflexivity. }
-        rewrite (CF c'), B'. repeat split; try reflexivity. intros _. rewrite (CF c), B. reflexivity.
+        { intro x. unfold call_func. rewrite (sig_of_func_sig f (wf_len f WF)), ES. reflexivity. }
+        rewrite (chain_plain f WF below c' PB ND'), (CF c'), B'.
+        repeat split; try reflexivity. intros _. rewrite (CF c), B. reflexivity.
       + repeat split; try reflexivity. discriminate.
-    - apply bind_raises_type_error in B as E. subst e. repeat split; try reflexivity.
-      intro F. unfold call_func. rewrite (sig_of_func_sig f (wf_len f WF)), <- (PLAIN F), B. reflexivity.
+    - rewrite L. apply bind_raises_type_error in B as E. subst e. repeat split; try reflexivity.
+      intro F. destruct (PLAIN F) as [ES _]. unfold call_func.
+      rewrite (sig_of_func_sig f (wf_len f WF)), <- ES, B. reflexivity.
   Qed.
-End Calls.
+End TopCalls.
 
-Lemma calls_ok_model f g b2 fwd k :
-  wf_func f -> good b2 -> sig_of (b_func g) = Ok (fb_sig b2) ->
-  b_inv g = inv_of_params (sg_params (fb_sig b2)) ->
-  (fwd = true -> fb_sig b2 = func_sig f) ->
+Lemma calls_ok_model f gtop below b2 fwd k :
+  wf_func f -> good b2 -> passes_on (fb_sig b2) gtop ->
+  (fwd = true -> fb_sig b2 = func_sig f /\ Forall (passes_on (func_sig f)) below) ->
   k_forward k = fwd ->
   forall calls, Forall (fun c => NoDup (keys (c_kw c))) calls ->
-  calls_ok k (fb_sig b2) calls (map (call_func f) calls) (map (call_built f g fwd) calls) = true.
+  calls_ok k (fb_sig b2) calls (map (call_func f) calls) (map (call_top f (gtop :: below) fwd) calls) = true.
 Proof.
-  intros WF G2 SG IV PL KF. induction calls as [|c r IH]; intro ND; [reflexivity|].
+  intros WF G2 PT PL KF. induction calls as [|c r IH]; intro ND; [reflexivity|].
   inversion ND as [|c0 r0 NDc NDr]; subst c0 r0. cbn [map calls_ok].
-  pose proof (model_call_ok f g b2 fwd WF G2 SG IV PL c NDc) as H.
-  destruct (call_built f g fwd c) as [saw out]. destruct H as [H1 [H2 [H3 H4]]].
+  pose proof (model_call_ok f gtop below b2 fwd WF G2 PT PL c NDc) as H.
+  destruct (call_top f (gtop :: below) fwd c) as [saw out]. destruct H as [H1 [H2 [H3 H4]]].
   rewrite H1, H2, bool_eqb_refl, H3, H2, bool_eqb_refl, (IH NDr), KF. simpl.
   destruct fwd.
   - rewrite (H4 eq_refl), rb_eqb_refl. destruct (plain k); reflexivity.
   - rewrite andb_false_r. reflexivity.
 Qed.
 
-(* THE MAIN REFINEMENT: for every well-formed function, injected/expected lists
-   and calls, the model's observation satisfies the Spec predicate [holds]. *)
-Theorem model_holds f inj exp fwd calls :
-  wf_func f -> Forall (fun nd => fst nd <> 0) exp ->
+(* THE MAIN REFINEMENT: for every well-formed base function, every non-empty
+   stack of wraps steps and all calls with distinct keywords, the model's
+   observation satisfies the Spec predicate [holds]. *)
+Theorem model_holds f steps fwd calls :
+  wf_func f -> steps <> [] -> steps_nonzero steps ->
   Forall (fun c => NoDup (keys (c_kw c))) calls ->
-  (fwd = true -> inj = [] /\ exp = []) ->
-  holds (model_case f inj exp fwd calls) = true.
+  (fwd = true -> forallb plain_step steps = true) ->
+  holds (model_case f steps fwd calls) = true.
 Proof.
-  intros WF NZ NDc PL. unfold holds, model_case.
-  cbn [k_f k_fsig k_fasync k_calls k_direct k_injected k_expected k_forward k_build].
+  intros WF NE NZ NDc PL. unfold holds, model_case.
+  cbn [k_f k_fsig k_fasync k_calls k_direct k_steps k_forward k_levels k_fail k_top_calls].
   rewrite (func_sig_wf f WF).
   assert (DIR : map (bind (sg_params (func_sig f))) calls = map (call_func f) calls).
   { apply map_ext. intro c. unfold call_func. rewrite (sig_of_func_sig f (wf_len f WF)). reflexivity. }
   rewrite DIR, (list_eqb_refl _ rb_eqb_refl). cbn [andb].
-  assert (PS : fwd = true -> spec_wraps (func_sig f) inj exp = Ok (func_sig f)).
-  { intro F. destruct (PL F) as [-> ->]. reflexivity. }
-  pose proof (update_wrapper_refines_strong f inj exp WF NZ) as R.
-  unfold model_build.
-  destruct (update_wrapper f inj exp) as [g|e]; destruct (spec_wraps (func_sig f) inj exp) as [s|e'] eqn:SW;
-    try (exfalso; exact R).
-  - destruct R as [SG [N [Dc [M [A [W [IV [b2 [G2 ES]]]]]]]]]. subst s.
-    cbn [bo_sig bo_name bo_doc bo_module bo_wrapped bo_async bo_calls].
-    rewrite SG, sig_eqb_refl, N, Nat.eqb_refl, Dc, M, !(option_eqb_refl Nat.eqb Nat.eqb_refl), W, A, bool_eqb_refl.
-    cbn [andb].
-    apply (calls_ok_model f g b2 fwd _ WF G2 SG IV); [|reflexivity|exact NDc].
-    intro F. specialize (PS F). congruence.
-  - destruct R as [->| ->]; reflexivity.
+  destruct (levels_model f steps f WF) as [top [LO REST]].
+  { repeat split. }
+  { exact NZ. }
+  rewrite LO. destruct (snd (run_steps f steps)) as [e|] eqn:E; [reflexivity|].
+  destruct (REST eq_refl) as [TOP PLN].
+  destruct (rev (fst (run_steps f steps))) as [|gtop below] eqn:RV.
+  - (* a non-empty stack that did not stop built at least one level *)
+    exfalso. destruct steps as [|st r]; [apply NE; reflexivity|].
+    rewrite run_steps_cons in RV, E.
+    destruct (update_wrapper_opt (s_options st) (s_id st) f (s_injected st) (s_expected st)) as [g0|e0]; [|discriminate E].
+    simpl in RV. destruct (rev (fst (run_steps (b_func g0) r))); discriminate RV.
+  - destruct (TOP gtop below eq_refl) as [PT [b2 [G2 ET]]]. subst top.
+    apply (calls_ok_model f gtop below b2 fwd _ WF G2 PT); [|reflexivity|exact NDc].
+    intro F. specialize (PLN (PL F)). apply Forall_rev' in PLN. rewrite RV in PLN.
+    inversion PLN as [|? ? P1 P2]; subst. split; [|exact P2].
+    destruct PT as [S1 _]. destruct P1 as [S2 _]. congruence.
 Qed.
 
 (* ... and the comparison with the model accepts the model's own observation *)
-Theorem model_agrees f inj exp fwd calls :
-  wf_func f -> Forall (fun nd => fst nd <> 0) exp ->
-  agree (model_case f inj exp fwd calls) = true.
+Lemma dict_equiv_refl d : dict_equiv d d = true.
 Proof.
-  intros WF NZ. unfold agree, model_case, model_build.
-  cbn [k_f k_fsig k_fasync k_calls k_direct k_injected k_expected k_forward k_build].
+  unfold dict_equiv. rewrite Nat.eqb_refl. apply forallb_forall. intros x _.
+  apply (option_eqb_refl Nat.eqb Nat.eqb_refl).
+Qed.
+
+Lemma forall2b_level_agree gs :
+  Forall (fun g => exists s, sig_of (b_func g) = Ok s) gs -> forall2b level_agree gs (map obs_of_built gs) = true.
+Proof.
+  induction gs as [|g r IH]; intro H; [reflexivity|]. inversion H as [|? ? [s Hs] Hr]; subst.
+  cbn [map forall2b]. rewrite (IH Hr), andb_true_r. unfold level_agree, obs_of_built.
+  cbn [bo_sig bo_name bo_doc bo_module bo_dict bo_async]. rewrite Hs. cbn [res_eqb].
+  rewrite sig_eqb_refl, Nat.eqb_refl, !(option_eqb_refl Nat.eqb Nat.eqb_refl), dict_equiv_refl, bool_eqb_refl. reflexivity.
+Qed.
+
+Lemma run_steps_sigs : forall steps h, wf_func h -> steps_nonzero steps ->
+  Forall (fun g => exists s, sig_of (b_func g) = Ok s) (fst (run_steps h steps)).
+Proof.
+  induction steps as [|st r IH]; intros h WF NZ; [constructor|].
+  inversion NZ as [|? ? NZ1 NZr]; subst. rewrite run_steps_cons.
+  pose proof (update_wrapper_opt_refines (s_options st) (s_id st) h (s_injected st) (s_expected st) WF NZ1) as R.
+  destruct (update_wrapper_opt (s_options st) (s_id st) h (s_injected st) (s_expected st)) as [g|e]; [|constructor].
+  destruct (spec_wraps (func_sig h) (s_injected st) (s_expected st)) as [s'|e']; [|exfalso; exact R].
+  destruct R as [SG [_ [_ [_ [_ [_ [_ [_ [_ [[WFg _] _]]]]]]]]]].
+  cbn [fst]. constructor; [exists s'; exact SG | apply IH; assumption].
+Qed.
+
+Theorem model_agrees f steps fwd calls :
+  wf_func f -> steps_nonzero steps ->
+  agree (model_case f steps fwd calls) = true.
+Proof.
+  intros WF NZ. unfold agree, model_case.
+  cbn [k_f k_fsig k_fasync k_calls k_direct k_steps k_forward k_levels k_fail k_top_calls].
   rewrite (sig_of_func_sig f (wf_len f WF)). cbn [res_eqb]. rewrite sig_eqb_refl, bool_eqb_refl.
   rewrite (list_eqb_refl _ rb_eqb_refl). cbn [andb].
-  pose proof (update_wrapper_refines_strong f inj exp WF NZ) as R.
-  destruct (update_wrapper f inj exp) as [g|e]; [|apply exn_eqb_refl].
-  cbn [bo_sig bo_name bo_doc bo_module bo_wrapped bo_async bo_calls].
-  destruct (spec_wraps (func_sig f) inj exp) as [s|e']; [|exfalso; exact R].
-  destruct R as [SG _]. rewrite SG. cbn [res_eqb].
-  rewrite sig_eqb_refl, Nat.eqb_refl, !(option_eqb_refl Nat.eqb Nat.eqb_refl), !bool_eqb_refl.
-  rewrite (list_eqb_refl _ call_obs_eqb_refl). reflexivity.
+  pose proof (run_steps_sigs steps f WF NZ) as SG.
+  destruct (run_steps f steps) as [gs e]. cbn [fst snd] in *.
+  rewrite (forall2b_level_agree gs SG), (option_eqb_refl _ exn_eqb_refl). cbn [andb].
+  destruct e; [reflexivity|]. apply (list_eqb_refl _ call_obs_eqb_refl).
 Qed.
